@@ -345,6 +345,12 @@ for k, v in TECH_ADD11.items():
     TECH[k] += "; " + v
 for k, v in TEXT_ADD11.items():
     TEXT[k] += v
+TECH_ADD12 = {
+ "C08": "the column table handed to an SSA line parser that computes len(table)-1 is shown non-empty at the call (difference constraints from the dominating tests of the reader)",
+ "C07": "the STL character tables (writer entry against reader entry, per code) are also a clause of conversion",
+}
+for k, v in TECH_ADD12.items():
+    TECH[k] += "; " + v
 NOTE = "Assumes P0 (non-nil receivers/arguments), P1 (non-nil model elements, map keys = IDs), library contracts in internal/chk/contracts.go, and the fidelity of go/ssa + VTA (x/tools v0.29.0). Audited residue entries in rules/residue.txt are trusted."
 props = [json.loads(l) for l in open("/verif/properties.jsonl")]
 checks, na = [], []
